@@ -110,6 +110,8 @@ def evaluate(e, env):
             if isinstance(v_, type) and not issubclass(v_, BaseException): return PyFn(lambda *a, _f=v_, **k: _trusted_call(_f, [(x.fn if isinstance(x, PyFn) else x) for x in a], k))
             return PyFn(lambda *a, _f=v_, **k: _trusted_call(_f, a, k)) if callable(v_) and not isinstance(v_, type) else v_
         if isinstance(base, _re.Pattern) and e.attr in ("pattern", "flags"): return getattr(base, e.attr)
+        if e.attr == "__class__" and (base is None or isinstance(base, (str, int, float, tuple, list, set, frozenset, bytes))) and not isinstance(base, SList): return PyFn(type(base))      # the class of a primitive value
+        if isinstance(base, PyFn) and isinstance(base.fn, type) and e.attr == "__name__": return base.fn.__name__
         if isinstance(base, InstObj):
             if e.attr == "__dict__": return base.own
             if e.attr == "__class__": return base.cls
